@@ -702,6 +702,20 @@ def run_C18(res):
                 k = pick_key()
                 recent.append(k)
                 ops.append(f"a:{k}:{rnd.randrange(1, 1 << 40)}")
+            elif c < 0.47:
+                # motif: look a key up, change the size (or clear), store under the SAME key, look it up again — anything remembered
+                # across operations about "the last key" has to survive the size change
+                k = pick_key()
+                recent.append(k)
+                ops.append(f"p:{k}")
+                if rnd.random() < 0.8:
+                    m = rnd.choice([0, 1, 2, 3])
+                    n = m * 1024 * 1024 // esz
+                    ops.append(f"r:{m}")
+                else:
+                    ops.append("c")
+                ops.append(f"a:{k}:{rnd.randrange(1, 1 << 40)}")
+                ops.append(f"p:{k}")
             elif c < 0.8:
                 k = rnd.choice(recent) if recent and rnd.random() < 0.6 else pick_key()
                 ops.append(f"p:{k}")
